@@ -19,6 +19,12 @@ CLAIMED = {
         "Trusted: as C01; the documented modelling assumptions (hash range/injectivity, balances <= 2^128) are excluded as the property says",
         "DESIGN.md §4 C02",
     ),
+    "C09": (
+        "Lean 4 theorems on an executable interaction-tree model of SEVM.call / SEVM.create (snapshots, value transfer, insufficient-fund branch, callbacks, returndata copy, depth limit): atomic / atomic_tree (a failing frame leaves code, storage, transient storage and balances as at its entry, for every callee behaviour and every tree), success_persists, caller_sees, frame_context (+table for CALL/STATICCALL/DELEGATECALL/CALLCODE/CREATE), static_enforced for SSTORE/TSTORE/LOG/CREATE with a proved counterexample for value-bearing CALL (recorded finding), value_conserved by structural induction over trees, insufficient_fails, depth_limit, kernel-checked agreement with Spec.Evm.exec on two call programs; tie: random and directed call trees (depth <= 4) compiled to contracts and run on the REAL SEVM, compared three ways with the Lean model (Driver/Calls) and the reference EVM, plus the generic SEVM-vs-reference differential on call scenarios",
+        "Full proof on the model for trees of any depth and width; CREATE2 and pranked calls are proved in the model but not exercised differentially (CREATE2 addresses are symbolic keccak terms in halmos); gas stipends are not modelled",
+        "Trusted: Lean kernel, Spec.Evm, Model.Calls (hand model, three-way correspondence), the tree-to-bytecode compiler in tools/vlib/callsmodel.py",
+        "DESIGN.md §4 C09",
+    ),
     "C10": (
         "Lean 4 theorems Props.C10.flagged (no flag and no satisfied stuck/tagged end state implies every terminating concrete input is reported by a satisfied end state), loop_bound_flag, concrete_loops_uncut, must_uncut (for every --loop, including 0), bounded_only_in_jumpi, cuts_flagged, flags_persist on the model of the exploration core; tie: exact comparison of flags with the real SEVM on core programs (--depth placed at the exact step count +-1), loop-heavy programs against the reference EVM, concrete-count loops under --loop 1..3, and end-to-end runs of run_contract on loop tests (regular, --width, --depth, setUp, invariant targets) requiring the warning whenever a failure lies beyond the cut",
         "Proof on the core model for the SEVM-level flags; the propagation of flags to warnings / non-PASS in __main__.py is checked end to end (differential), not modelled in Lean",
